@@ -66,6 +66,12 @@ class Prop(BaseProp):
     def module(self, rng):
         b = Builder(rng, p_doc=0.6, max_depth=3, max_items=6)
         mod = b.module(module_doc=rng.random() < 0.3, module_name=rng.choice(["", "modN0Z"]))
+        if rng.random() < 0.012:
+            # scale: a module of more than 64 KiB with text outside ASCII in its doccomments (where a block of bytes ends is
+            # decided by the layout alone)
+            b.mkdoc = lambda r, uid: [f"{{L{uid}.{k}}} Grüße – größer ✓ 日本語" for k in range(r.randint(1, 4))]
+            mod.items = mod.items + b.items(0, n=rng.randint(160, 260))
+            mod.big = True
         # free-form doccomment bodies (the project documents the leaderless style): leaderless lines with their own
         # relative indentation, leaders preceded by extra blanks, '#' without a following space, tabs after the leader
         for it in mod.walk():
